@@ -10,11 +10,11 @@ def K(harness, **kw):
     return dict(kind='kani', harness=harness, **kw)
 
 PROPS = {
-    'C01': dict(level='proof', steps=[V('writer'), E3('c01-roundtrip'), E3('c01-bytepairs'), E3('c01-reals', complete_in_thorough=True), E3('c01-roundtrip', no_default_features=True)],
+    'C01': dict(level='proof', steps=[V('writer'), V('reader'), E3('c01-roundtrip'), E3('c01-bytepairs'), E3('c01-reals', complete_in_thorough=True), E3('c01-roundtrip', no_default_features=True)],
                 title='Save then load returns the same document',
-                technique='Verus contracts on mechanically extracted writer functions (spec encodings from ISO 32000-1 7.3)',
-                text='writer side: every lexical writer function emits exactly the ISO encoding of its argument (unbounded, Verus).',
-                note='std fmt/itoa shims trusted; reader side (nom) not under contract'),
+                technique='Verus contracts on mechanically extracted writer functions (spec encodings from ISO 32000-1 7.3, 7.5), on the cross-reference stream decoder, and round-trip theorems between the two specifications; bounded-exhaustive save/load for the nom grammar',
+                text='writer side: every lexical writer function, the cross-reference table / stream and the whole file layout emit exactly the specified bytes for every argument (unbounded, Verus). Round trips proved between specifications: a reader written from ISO 7.3.4/7.3.5 recovers every name, literal and hexadecimal string from its encoding (grammar.rs); the specification decode_xref_stream is proved against (unit reader) recovers exactly the in-use and compressed entries of the table from the bytes and Index create_xref_steam is proved to deliver (xrefrt.rs). The nom parsers (objects, cross-reference table, trailer) are compared on the bounded families only.',
+                note='std fmt/itoa shims trusted; the nom parsers are not under contract (bounded stand-in); known finding K-C01-1: nesting deeper than MAX_CONTAINER_DEPTH = 32'),
     'C03': dict(level='proof', steps=[V('writer'), E3('c03-strict')],
                 title='Saved files are valid PDF for a strict third-party reader',
                 technique='Verus contracts on mechanically extracted writer functions',
@@ -53,13 +53,13 @@ PROPS['C07'] = dict(level='proof', steps=[V('reader'), V('writer'), E3('c07-hist
 PROPS['C04'] = dict(level='proof', steps=[V('stream'), V('reader'), E3('c04-hostile'), E3('c04-depth', profile='dev')],
                 title='Parsing untrusted bytes never panics, aborts or hangs',
                 technique='Verus robustness obligations (overflow, bounds, unwrap, termination, allocation bound) on the byte-level decoders that are not nom combinators; worker-process sweeps of hostile inputs for the rest',
-                text='for every input: PNG predictor decoding, predictor geometry, ASCII85 decoding and startxref search neither overflow, index out of range, loop without progress nor allocate beyond a linear bound (Verus, no preconditions beyond call-site facts). The nom grammar, cross-reference stream decoding, object streams, CMaps and text decoding are covered by the bounded sweep only.',
+                text='for every input: PNG predictor decoding, predictor geometry, ASCII85 decoding and startxref search neither overflow, index out of range, loop without progress nor allocate beyond a linear bound (Verus, no preconditions beyond call-site facts). Cross-reference stream decoding is proved free of overflow, out-of-range index, oversized allocation and stalling for every /W, /Index, /Size (Verus, no precondition). The nom grammar, object streams, CMaps and text decoding are covered by the bounded sweep only.',
                 note='nom/flate2/weezl/encoding_rs assumed not to panic; allocation within the granted bound assumed to succeed')
 
 PROPS['C02'] = dict(level='proof', steps=[V('stream'), V('reader'), E3('c02-reader')],
                 title='Well-formed PDFs from any producer load to their content',
-                technique='Verus contracts on the non-nom decoders (PNG predictors, ASCII85, startxref search); reference writer x enumerated syntactic choices through the real loader for the nom grammar',
-                text='structural-stream decoding (Flate predictor 10-15 geometry and PNG reconstruction, ASCII85) and startxref discovery are proved for all inputs (Verus); the lexical and cross-reference grammar (nom) is compared with an independent reference writer over every combination of a bounded set of syntactic choices.',
+                technique='Verus contracts on the non-nom decoders (PNG predictors, ASCII85, startxref search, cross-reference stream decoding against a specification written from ISO 32000-1 7.5.8); reference writer x enumerated syntactic choices through the real loader for the nom grammar',
+                text='structural-stream decoding (Flate predictor 10-15 geometry and PNG reconstruction, ASCII85) and startxref discovery are proved for all inputs, and decode_xref_stream is proved to return exactly the entries that ISO 32000-1 7.5.8.2/3 define for every /W, /Index, /Size and data (rows of any type take their full width, types other than 1 and 2 leave no entry) (Verus); the lexical and cross-reference-table grammar (nom) is compared with an independent reference writer over every combination of a bounded set of syntactic choices.',
                 note='the nom grammar itself is outside both verifiers: bounded stand-in; flate2 assumed')
 
 PROPS['C06'] = dict(level='proof', steps=[V('keys'), V('crypt'), K('kani_permission_word'), E3('c06-interop')],
@@ -104,11 +104,11 @@ PROPS['C05'] = dict(level='proof', steps=[V('crypt'), E3('c05-encrypt')],
                 text='the cipher kernels written in the crate are proved for all inputs: Rc4::new is the KSA, apply_keystream/encrypt/decrypt are the PRGA XOR and decrypt(encrypt(x)) = x; Pkcs5 raw_pad / unpad are inverse (Verus). Filter selection, key derivation, password authentication and the document walk are covered by the bounded family only.',
                 note='aes/cbc/md-5/sha2/rand assumed; encrypt_object/decrypt_object and Document::{encrypt,decrypt} are closure/iterator code not under contract')
 
-PROPS['C13'] = dict(level='other', steps=[V('pages'), V('resources'), E3('c13-queries')],
+PROPS['C13'] = dict(level='other', steps=[V('pages'), V('resources'), V('deref'), E3('c13-queries')],
                 title='Read-only queries are total on arbitrary object graphs',
                 technique='bounded-exhaustive typed-chaos documents (17 families, every key the query code reads bound to every kind / reference / cycle) evaluated in worker processes with stack, CPU and memory limits',
-                text='bounded stand-in: every read-only query on every enumerated small document returns without panic, abort, stack overflow or exceeding a CPU budget; lookups agree with an independent chain follower. The page walk under get_pages / page_iter (PageTreeIter::next) and the walks up the Parent chain (Document::get_page_resources, get_page_fonts, which extract_text uses) are additionally proved terminating on every graph, the latter with an error exactly when the chain is cyclic or leaves the document (Verus units pages, resources).',
-                note='bounded; apart from PageTreeIter::next, get_page_resources and get_page_fonts the walkers are closure/iterator code not under contract')
+                text='bounded stand-in: every read-only query on every enumerated small document returns without panic, abort, stack overflow or exceeding a CPU budget; lookups agree with an independent chain follower. The page walk under get_pages / page_iter (PageTreeIter::next) and the walks up the Parent chain (Document::get_page_resources, get_page_fonts, which extract_text uses) are additionally proved terminating on every graph, the latter with an error exactly when the chain is cyclic or leaves the document; Document::dereference and get_object are proved to follow at most DEREF_LIMIT references and to return the end of the chain, ObjectNotFound or ReferenceLimit as the chain dictates (Verus units pages, resources, deref).',
+                note='bounded; apart from PageTreeIter::next, get_page_resources, get_page_fonts, dereference and get_object the walkers are closure/iterator code not under contract')
 
 PROPS['C15'] = dict(level='proof', steps=[V('cmap'), E3('c15-cmap')],
                 title='ToUnicode CMaps decode text as the CMap defines',
